@@ -518,6 +518,8 @@ type family struct {
 	byID  map[types.Hash256]famEntry
 	kinds map[string]bool
 	clash *[2]famEntry
+	// far indices are added once per family and derivation kind
+	farContract, farV1, farV2, farBlock bool
 }
 
 func newFamily() *family {
@@ -539,11 +541,22 @@ func (f *family) add(kind string, src types.Hash256, idx int, id types.Hash256) 
 	f.byID[id] = e
 }
 
+// farIdx are indices beyond any list the generator builds: every byte of the 64-bit index has to be bound (a block
+// may carry hundreds of miner payouts, a transaction thousands of outputs).
+var farIdx = []int{255, 256, 257, 511, 512, 65535, 65536, 65537, 1 << 24, 1 << 32, 1<<32 + 1, 1 << 40, 1 << 56, 1<<62 + 256}
+
 func (f *family) contract(id types.FileContractID) {
 	src := types.Hash256(id)
 	for j := 0; j < 3; j++ {
 		f.add("ValidOutputID", src, j, types.Hash256(id.ValidOutputID(j)))
 		f.add("MissedOutputID", src, j, types.Hash256(id.MissedOutputID(j)))
+	}
+	if !f.farContract {
+		f.farContract = true // once per family is enough: the index handling does not depend on the contract
+		for _, j := range farIdx {
+			f.add("ValidOutputID", src, j, types.Hash256(id.ValidOutputID(j)))
+			f.add("MissedOutputID", src, j, types.Hash256(id.MissedOutputID(j)))
+		}
 	}
 	f.add("V2RenterOutputID", src, 0, types.Hash256(id.V2RenterOutputID()))
 	f.add("V2HostOutputID", src, 0, types.Hash256(id.V2HostOutputID()))
@@ -570,6 +583,14 @@ func (f *family) v1(t *types.Transaction) {
 		id := t.FileContractID(i)
 		f.add("FileContractID", src, i, types.Hash256(id))
 		f.contract(id)
+	}
+	if !f.farV1 {
+		f.farV1 = true
+		for _, i := range farIdx {
+			f.add("SiacoinOutputID", src, i, types.Hash256(t.SiacoinOutputID(i)))
+			f.add("SiafundOutputID", src, i, types.Hash256(t.SiafundOutputID(i)))
+			f.add("FileContractID", src, i, types.Hash256(t.FileContractID(i)))
+		}
 	}
 	for _, in := range t.SiafundInputs {
 		f.claims(in.ParentID)
@@ -602,6 +623,15 @@ func (f *family) v2(t *types.V2Transaction) {
 	for i := 0; i < lim(len(t.Attestations)); i++ {
 		f.add("AttestationID", src, i, types.Hash256(t.AttestationID(txid, i)))
 	}
+	if !f.farV2 {
+		f.farV2 = true
+		for _, i := range farIdx {
+			f.add("V2SiacoinOutputID", src, i, types.Hash256(t.SiacoinOutputID(txid, i)))
+			f.add("V2SiafundOutputID", src, i, types.Hash256(t.SiafundOutputID(txid, i)))
+			f.add("V2FileContractID", src, i, types.Hash256(t.V2FileContractID(txid, i)))
+			f.add("AttestationID", src, i, types.Hash256(t.AttestationID(txid, i)))
+		}
+	}
 	for _, in := range t.SiafundInputs {
 		f.claims(in.Parent.ID)
 	}
@@ -621,6 +651,12 @@ func (f *family) block(b *types.Block) {
 		f.add("MinerOutputID", src, i, types.Hash256(bid.MinerOutputID(i)))
 	}
 	f.add("FoundationOutputID", src, 0, types.Hash256(bid.FoundationOutputID()))
+	if !f.farBlock {
+		f.farBlock = true
+		for _, i := range farIdx {
+			f.add("MinerOutputID", src, i, types.Hash256(bid.MinerOutputID(i)))
+		}
+	}
 	for i := range b.Transactions {
 		f.v1(&b.Transactions[i])
 	}
